@@ -452,7 +452,12 @@ func Chdir() {
 	if oldWd == "" {
 		oldWd, _ = os.Getwd()
 	}
-	os.Chdir(filepath.Dir(dir))
+	// a working directory unrelated to the test file and several levels deep (a relative path
+	// climbing out of a shallow directory is clamped at the root and may land on the right file
+	// by accident)
+	wd := filepath.Join(filepath.Dir(dir), "cwd", "some", "where", "deep", "down")
+	os.MkdirAll(wd, 0o755)
+	os.Chdir(wd)
 }
 
 var oldWd string
